@@ -156,9 +156,12 @@ def work(case):
     edits = case.get("edits")
     if edits is None:
         if case.get("stream") == "bridges":
+            edits = editgen.gen_bridge_pair(rng, case["doc"], texts)
+        if edits is None or (case.get("stream") == "bridges" and not edits):
+          if case.get("stream") == "bridges":
             edits = editgen.gen_batch(rng, case["doc"], texts, rng.randint(2, 3), ["extend", "prefix", "shared", "shared", "replace"],
                                       allow_collisions=True, same_para_bias=1.0)
-        else:
+          else:
             edits = editgen.gen_batch(rng, case["doc"], texts, rng.randint(1, 4), editgen.KINDS_C02, allow_collisions=True)
             if rng.random() < 0.4:
                 # a target quoted with the bold / italic markers of a formatted run (text put behind / before the markers)
